@@ -66,24 +66,42 @@ impl Opts {
 
 fn default_level(m: u16) -> i32 { match m { 8 => 6, 12 => 6, 93 => 3, _ => 0 } }
 
+/// The documented level range of a compressing method: Deflated 0..=9, Bzip2 1..=9 (0 is refused since D10), Zstd
+/// the library's own range.
+pub fn level_range(method: u16) -> Option<std::ops::RangeInclusive<i32>> {
+    match method { 8 => Some(0..=9), 12 => Some(1..=9), 93 => Some(zstd::compression_level_range()), _ => None }
+}
+
 /// Compress `chunks` with the codec library directly, feeding the same chunk sequence.
-pub fn direct_compress(method: u16, level: i32, chunks: &[Vec<u8>]) -> Option<Vec<u8>> {
-    let ok = match method { 8 => (0..=9).contains(&level), 12 => (1..=9).contains(&level), 93 => (-131072..=22).contains(&level), _ => false };
-    if !ok { return None; }
+pub fn direct_compress(method: u16, level: i32, chunks: &[Vec<u8>]) -> Option<Vec<u8>> { direct_compress_fl(method, level, chunks, &[]) }
+
+/// ... with a `flush()` of the encoder in front of chunk `i` for every `i` in `flushes` (`chunks.len()` = after the
+/// last chunk): `ZipWriter::flush` forwards to the encoder, whose flush ends the current block, so the stored
+/// stream depends on where the caller flushed.
+pub fn direct_compress_fl(method: u16, level: i32, chunks: &[Vec<u8>], flushes: &[usize]) -> Option<Vec<u8>> {
+    if !level_range(method).map(|r| r.contains(&level)).unwrap_or(false) { return None; }
+    fn feed<E: Write>(e: &mut E, chunks: &[Vec<u8>], flushes: &[usize]) -> Option<()> {
+        for (i, c) in chunks.iter().enumerate() {
+            for _ in flushes.iter().filter(|f| **f == i) { e.flush().ok()?; }
+            e.write_all(c).ok()?;
+        }
+        for _ in flushes.iter().filter(|f| **f >= chunks.len()) { e.flush().ok()?; }
+        Some(())
+    }
     match method {
         8 => {
             let mut e = flate2::write::DeflateEncoder::new(vec![], flate2::Compression::new(level as u32));
-            for c in chunks { e.write_all(c).ok()?; }
+            feed(&mut e, chunks, flushes)?;
             e.finish().ok()
         }
         12 => {
             let mut e = bzip2::write::BzEncoder::new(vec![], bzip2::Compression::new(level as u32));
-            for c in chunks { e.write_all(c).ok()?; }
+            feed(&mut e, chunks, flushes)?;
             e.finish().ok()
         }
         93 => {
             let mut e = zstd::stream::write::Encoder::new(vec![], level).ok()?;
-            for c in chunks { e.write_all(c).ok()?; }
+            feed(&mut e, chunks, flushes)?;
             e.finish().ok()
         }
         _ => None,
@@ -95,6 +113,11 @@ struct Cur {
     level: i32,
     pw: Option<Vec<u8>>,
     chunks: Vec<Vec<u8>>,
+    /// `flush` calls that reached the entry's encoder: number of chunks written before each
+    flushes: Vec<usize>,
+    /// the entry's encoder is installed (`switch_to` ran: not yet in the local part of extra-data mode, but already
+    /// in the central-only part that `end_local_start_central_extra_data` opens)
+    enc_on: bool,
     in_extra: bool,
     raw: bool,
 }
@@ -138,7 +161,7 @@ pub struct RunOut {
 /// entry stays open); rows are keyed by content, so recording too many is harmless.
 fn note_cur(cur: &Option<Cur>, comp: &mut Vec<String>, zc: &mut Vec<String>) {
     if let Some(c) = cur {
-        let mut tmp = Some(Cur { method: c.method, level: c.level, pw: c.pw.clone(), chunks: c.chunks.clone(), in_extra: c.in_extra, raw: c.raw });
+        let mut tmp = Some(Cur { method: c.method, level: c.level, pw: c.pw.clone(), chunks: c.chunks.clone(), flushes: c.flushes.clone(), enc_on: c.enc_on, in_extra: c.in_extra, raw: c.raw });
         close_cur(&mut tmp, comp, zc);
     }
 }
@@ -148,7 +171,7 @@ fn close_cur(cur: &mut Option<Cur>, comp: &mut Vec<String>, zc: &mut Vec<String>
         if c.raw { return; }
         let plain: Vec<u8> = c.chunks.concat();
         let stored: Vec<u8> = if c.method == 0 { plain.clone() } else {
-            match direct_compress(c.method, c.level, &c.chunks) {
+            match direct_compress_fl(c.method, c.level, &c.chunks, &c.flushes) {
                 Some(o) => {
                     comp.push(format!("{}:{}:{}:{}:{}", c.method, c.level, crc32fast::hash(&plain), plain.len(), hex(&o)));
                     o
@@ -249,7 +272,7 @@ pub fn run_calls_sink<S: std::io::Read + Write + std::io::Seek + SinkInfo>(calls
                         if res.is_ok() { close_cur(&mut cur, &mut out.comp, &mut out.zc); } else { note_cur(&cur, &mut out.comp, &mut out.zc); }
                         match res {
                             Ok(t) => {
-                                cur = Some(Cur { method: o.method, level: o.level.unwrap_or(default_level(o.method)), pw: o.pw.clone(), chunks: vec![], in_extra: x[0] == "sx", raw: false });
+                                cur = Some(Cur { method: o.method, level: o.level.unwrap_or(default_level(o.method)), pw: o.pw.clone(), chunks: vec![], flushes: vec![], enc_on: x[0] != "sx", in_extra: x[0] == "sx", raw: false });
                                 out.expect.push((name, o.method, Some(vec![]), Some(0o100000 | o.perm.map(|p| p & 0o777).unwrap_or(0o644))));
                                 pending_expect = Some(out.expect.len() - 1);
                                 t
@@ -273,11 +296,11 @@ pub fn run_calls_sink<S: std::io::Read + Write + std::io::Seek + SinkInfo>(calls
                         }
                     }
                     "el" => match w.end_local_start_central_extra_data() {
-                        Ok(v) => { if let Some(c) = cur.as_mut() { c.in_extra = true; } format!("ok={v}") }
+                        Ok(v) => { if let Some(c) = cur.as_mut() { c.in_extra = true; c.enc_on = true; } format!("ok={v}") }
                         Err(e) => cls_z(&e),
                     },
                     "ex" => match w.end_extra_data() {
-                        Ok(v) => { if let Some(c) = cur.as_mut() { c.in_extra = false; } format!("ok={v}") }
+                        Ok(v) => { if let Some(c) = cur.as_mut() { c.in_extra = false; c.enc_on = true; } format!("ok={v}") }
                         Err(e) => cls_z(&e),
                     },
                     "dir" => {
@@ -290,7 +313,7 @@ pub fn run_calls_sink<S: std::io::Read + Write + std::io::Seek + SinkInfo>(calls
                             Ok(()) => {
                                 // an encrypting option encrypts the (empty) content: 12 header bytes are stored
                                 if let Some(pw) = &o.pw {
-                                    let mut c = Some(Cur { method: 0, level: 0, pw: Some(pw.clone()), chunks: vec![], in_extra: false, raw: false });
+                                    let mut c = Some(Cur { method: 0, level: 0, pw: Some(pw.clone()), chunks: vec![], flushes: vec![], enc_on: true, in_extra: false, raw: false });
                                     close_cur(&mut c, &mut out.comp, &mut out.zc);
                                 }
                                 let n2 = if nm.ends_with('/') || nm.ends_with('\\') { nm } else { format!("{nm}/") };
@@ -310,7 +333,7 @@ pub fn run_calls_sink<S: std::io::Read + Write + std::io::Seek + SinkInfo>(calls
                             Ok(()) => {
                                 // the symlink target is the (stored) content; an encrypting option would also encrypt it
                                 if let Some(pw) = &o.pw {
-                                    let mut c = Some(Cur { method: 0, level: 0, pw: Some(pw.clone()), chunks: vec![target.clone()], in_extra: false, raw: false });
+                                    let mut c = Some(Cur { method: 0, level: 0, pw: Some(pw.clone()), chunks: vec![target.clone()], flushes: vec![], enc_on: true, in_extra: false, raw: false });
                                     close_cur(&mut c, &mut out.comp, &mut out.zc);
                                 }
                                 out.expect.push((name, 0, Some(target), Some(0o120000 | o.perm.map(|p| p & 0o777).unwrap_or(0o777))));
@@ -320,6 +343,15 @@ pub fn run_calls_sink<S: std::io::Read + Write + std::io::Seek + SinkInfo>(calls
                         }
                     }
                     "c" => { let b = unhex(x[1]).unwrap_or_default(); out.comment = b.clone(); w.set_raw_comment(b); "ok".into() }
+                    // `impl Write for ZipWriter`: flush
+                    "fl" => match w.flush() {
+                        Ok(()) => {
+                            // an encoder ends its current block: the stored stream depends on it
+                            if let Some(c) = cur.as_mut() { if !c.raw && c.enc_on && c.method != 0 { c.flushes.push(c.chunks.len()); } }
+                            "ok".into()
+                        }
+                        Err(e) => cls_io(&e),
+                    },
                     "rc" => {
                         let si: usize = x[1].parse().unwrap_or(99);
                         let ei: usize = x[2].parse().unwrap_or(0);
@@ -333,7 +365,7 @@ pub fn run_calls_sink<S: std::io::Read + Write + std::io::Seek + SinkInfo>(calls
                                     if res.is_ok() { close_cur(&mut cur, &mut out.comp, &mut out.zc); pending_expect = None; } else { note_cur(&cur, &mut out.comp, &mut out.zc); }
                                     match res {
                                         Ok(()) => {
-                                            cur = Some(Cur { method: m, level: 0, pw: None, chunks: vec![], in_extra: false, raw: true });
+                                            cur = Some(Cur { method: m, level: 0, pw: None, chunks: vec![], flushes: vec![], enc_on: false, in_extra: false, raw: true });
                                             let nm = if x[3] == "same" { sname } else { unhex(x[3]).unwrap_or_default() };
                                             out.expect.push((nm, m, None, None));
                                             "ok".into()
@@ -494,10 +526,45 @@ pub fn rand_calls(r: &mut Rng, srcs: &[Vec<u8>], base: Option<&Vec<u8>>, misuse:
     calls.push(if r.chance(4, 5) { "fin".into() } else { "drop".into() });
     if misuse && r.chance(1, 4) && calls.last().map(|c| c == "fin").unwrap_or(false) {
         calls.push(format!("w,{}", hex(b"after finish")));
+        if r.chance(1, 2) { calls.push("fl".into()); }
         calls.push(format!("sf,{},{}", hex(b"late"), rand_opts(r, false).tok()));
         calls.push("fin".into());
     }
+    // `Write::flush` at arbitrary places (one line in three): before anything, between the writes of an entry (stored,
+    // compressing, encrypting), in extra-data mode, after a directory, after a refused call, after finish
+    if r.chance(1, 3) {
+        let mut i = 1;
+        while i <= calls.len() {
+            if i < calls.len() && calls[i - 1] == "drop" { break; }
+            if r.chance(1, 4) { calls.insert(i, "fl".into()); i += 1; }
+            i += 1;
+        }
+        // nothing may follow `drop`
+        if let Some(k) = calls.iter().position(|c| c == "drop") { calls.truncate(k + 1); }
+    }
     calls
+}
+
+/// Two codec rows with the same key (method, level, CRC and length of the plaintext) but different output: the
+/// same content went through the same encoder with `flush` calls at different places.  The model looks a stream
+/// up by that key, so such a line cannot be compared.
+pub fn comp_collision(comp: &[String]) -> bool {
+    let mut seen: std::collections::HashMap<&str, &str> = std::collections::HashMap::new();
+    for row in comp {
+        if let Some(i) = row.rfind(':') {
+            let (k, v) = (&row[..i], &row[i + 1..]);
+            if let Some(old) = seen.insert(k, v) { if old != v { return true; } }
+        }
+    }
+    false
+}
+
+/// Remove the `fl` calls of a line whose codec rows would collide (see `comp_collision`); returns whether it did.
+pub fn settle_flushes(calls: &mut Vec<String>, srcs: &[Vec<u8>]) -> bool {
+    if !calls.iter().any(|c| c == "fl") { return false; }
+    if !comp_collision(&run_calls(calls, srcs).comp) { return false; }
+    calls.retain(|c| c != "fl");
+    true
 }
 
 pub fn make_line(calls: &[String], srcs: &[Vec<u8>]) -> String {
@@ -507,6 +574,19 @@ pub fn make_line(calls: &[String], srcs: &[Vec<u8>]) -> String {
     line += &format!(" zc={}", if ro.zc.is_empty() { "-".into() } else { ro.zc.join(";") });
     for (i, s) in srcs.iter().enumerate() { line += &format!(" src{i}={}", hex(s)); }
     line
+}
+
+/// `dist` counters of the `fl` calls of a line by the state they meet: `flush.closed` (the call answers BrokenPipe:
+/// after finish, or after a call that closed the writer), `flush.ok`, and lines with a flush inside a compressing
+/// entry (`flush.line-with-encoder-flush`: the codec row was built with the same flush points).
+fn count_flushes(g: &mut GenOut, calls: &[String], srcs: &[Vec<u8>]) {
+    if !calls.iter().any(|c| c == "fl") { return; }
+    let ro = run_calls(calls, srcs);
+    for (c, t) in calls.iter().zip(ro.tokens.iter()) {
+        if c == "fl" { *g.dist.entry(if t == "ok" { "flush.ok".to_string() } else { format!("flush.{}", t.rsplit(':').next().unwrap_or("err")) }).or_insert(0) += 1; }
+    }
+    let plain: Vec<String> = calls.iter().filter(|c| *c != "fl").cloned().collect();
+    if run_calls(&plain, srcs).comp != ro.comp { *g.dist.entry("flush.line-with-encoder-flush".into()).or_insert(0) += 1; }
 }
 
 fn small_source(r: &mut Rng) -> Vec<u8> {
@@ -742,9 +822,28 @@ impl Stream for WriteStream {
             let srcs: Vec<Vec<u8>> = (0..nsrc).map(|_| if r.chance(3, 4) { small_source(&mut r) } else { let (l, _) = super::read::rand_layout(&mut r); crate::mkzip::build(&l).bytes }).collect();
             let base = if r.chance(1, 5) { Some(small_source(&mut r)) } else { None };
             let misuse = r.chance(1, 3);
-            let calls = rand_calls(&mut r, &srcs, base.as_ref(), misuse);
+            let mut calls = rand_calls(&mut r, &srcs, base.as_ref(), misuse);
+            if settle_flushes(&mut calls, &srcs) { *g.dist.entry("flush.removed-codec-row-collision".into()).or_insert(0) += 1; }
+            count_flushes(&mut g, &calls, &srcs);
             let kind = if base.is_some() { "append" } else if misuse { "misuse" } else { "valid" };
             g.push(kind, make_line(&calls, &srcs));
+        }
+        // compression levels at and just outside the documented range of every compressing method, through
+        // start_file and start_file_aligned (the refusal is the START call's; the archive goes on afterwards)
+        for &m in &[8u16, 12, 93] {
+            let rg = level_range(m).unwrap();
+            for lv in [*rg.start() - 1, *rg.start(), *rg.end(), *rg.end() + 1] {
+                for kind in ["sf", "sa"] {
+                    let o = Opts { method: m, level: Some(lv), dp: 0x21, tp: 0, perm: None, large: false, pw: None };
+                    let mut calls = vec!["new".to_string()];
+                    calls.push(if kind == "sf" { format!("sf,{},{}", hex(b"lv"), o.tok()) } else { format!("sa,{},{},16", hex(b"lv"), o.tok()) });
+                    calls.push(format!("w,{}", hex(b"level level level level")));
+                    calls.push(format!("sf,{},{}", hex(b"next"), Opts { method: 0, level: None, ..o.clone() }.tok()));
+                    calls.push(format!("w,{}", hex(b"tail")));
+                    calls.push("fin".into());
+                    g.push(if rg.contains(&lv) { "level.boundary-inside" } else { "level.boundary-outside" }, make_line(&calls, &[]));
+                }
+            }
         }
         // large incompressible contents in ONE write call through every compressing method: the encoder accepts
         // only part of the buffer per `write`, `write_all` re-offers the rest, and every byte must be counted and
@@ -762,6 +861,7 @@ impl Stream for WriteStream {
 
     fn run(&self, line: &str) -> String {
         if line.starts_with("write.big ") { return "oracle-only".into(); }
+        if line.starts_with("z64.rawcopy ") { return super::z64::Z64.run(line); }
         let (_, a) = parse_line(line);
         let calls: Vec<String> = a.get("calls").map(|c| c.split(';').map(|s| s.to_string()).collect()).unwrap_or_default();
         if calls.is_empty() { return "bad-op".into(); }
@@ -773,12 +873,25 @@ impl Stream for WriteStream {
     }
 
     fn nontrivial(&self, line: &str, resp: &str) -> bool {
-        line.starts_with("write.big ") || resp.contains("final=") && resp.matches(" ok").count() >= 2
+        line.starts_with("write.big ") || line.starts_with("z64.rawcopy ") || resp.contains("final=") && resp.matches(" ok").count() >= 2
     }
 
-    fn oracle(&self, line: &str, resp: &str) -> Vec<OracleFailure> {
+    fn oracle(&self, line: &str, resp: &str) -> Vec<OracleFailure> { self.oracle_with(line, resp, true) }
+
+    fn stats(&self) -> Vec<(String, u64)> {
+        C02_STATS.lock().map(|m| m.iter().map(|(k, v)| (k.clone(), *v)).collect()).unwrap_or_default()
+    }
+}
+
+impl WriteStream {
+    /// `misuse`: also judge the C12 clauses "documented misuse returns an error" (`callseq::misuse_oracle`: a write
+    /// with no file open, end_extra_data never begun, an unsupported method or a compression level outside the
+    /// documented range of a compressing method, any call but set_comment after a successful finish - `flush`
+    /// included) on the calls and their outcomes; the callseq stream judges them itself, on the whole sequence.
+    pub fn oracle_with(&self, line: &str, resp: &str, misuse: bool) -> Vec<OracleFailure> {
         let mut f = vec![];
         if line.starts_with("write.big ") { return oracle_append_big(line); }
+        if line.starts_with("z64.rawcopy ") { return super::z64::Z64.oracle(line, resp); }
         if resp.contains("panic") {
             f.push(OracleFailure { what: format!("a writer call panicked: {}", &resp[..resp.len().min(160)]) });
             return f;
@@ -787,10 +900,17 @@ impl Stream for WriteStream {
         let (_, a) = parse_line(line);
         let calls: Vec<String> = a.get("calls").map(|c| c.split(';').map(|s| s.to_string()).collect()).unwrap_or_default();
         if calls.is_empty() { return f; }
-        // K-F: the writer's own fixed-size fields can spell a record signature where readers probe for one
-        if let Some(kf) = known_false_signature(&calls, &parse_srcs(&a)) { return vec![OracleFailure { what: kf }]; }
-        if calls[0].starts_with("ap,") { return oracle_append(&calls, &parse_srcs(&a)); }
-        if calls.iter().any(|c| c.starts_with("rc,")) { f.extend(oracle_rawcopy(&calls, &parse_srcs(&a))); }
+        if misuse {
+            let toks = run_calls(&calls, &parse_srcs(&a)).tokens;
+            for w in super::callseq::misuse_oracle(&calls, &toks) { f.push(OracleFailure { what: format!("misuse absorbed: {w}") }); }
+        }
+        // K-F: the writer's own fixed-size fields can spell a record signature where readers probe for one AND the
+        // crate's reader then fails on the whole output in the way the finding describes.  The label stands in for
+        // the one message it explains ("the archive does not open"); every check that does not need the crate's
+        // reader (C02: strict parser, its view against the calls, the length rule, CPython; C12 misuse) still runs
+        let kf = known_false_signature(&calls, &parse_srcs(&a));
+        if calls[0].starts_with("ap,") { f.extend(oracle_append(&calls, &parse_srcs(&a), kf.as_deref())); return f; }
+        if calls.iter().any(|c| c.starts_with("rc,")) { f.extend(oracle_rawcopy(&calls, &parse_srcs(&a), kf.as_deref())); }
         if calls[0] != "new" { return f; }
         let srcs = parse_srcs(&a);
         let ro = run_calls(&calls, &srcs);
@@ -798,12 +918,13 @@ impl Stream for WriteStream {
         // calls after a successful finish are misuse on a closed writer; the archive is what finish returned
         let bytes = match &ro.fin { Some(b) => b.clone(), None => return f };
         // C02: the independent strict parser (and CPython on a sample) judge the same bytes
-        let c02 = c02_checks(line, &calls, &srcs, &ro, &bytes, 0, &ro.comment);
+        let c02 = c02_checks(line, &calls, &srcs, &ro, &bytes, 0, &ro.comment, kf.as_deref());
+        let kf2 = kf.clone();
         let r = catch(move || {
             let mut fails = vec![];
             let mut ar = match zip::ZipArchive::new(Cursor::new(bytes)) {
                 Ok(a) => a,
-                Err(e) => return vec![format!("finish() succeeded but the archive does not open: {}", cls_z(&e))],
+                Err(e) => return vec![match kf2 { Some(k) => k, None => format!("finish() succeeded but the archive does not open: {}", cls_z(&e)) }],
             };
             if ar.comment() != &ro.comment[..] { fails.push("archive comment differs from the one set".to_string()); }
             if ar.len() != ro.expect.len() {
@@ -842,10 +963,6 @@ impl Stream for WriteStream {
         f.extend(c02);
         f
     }
-
-    fn stats(&self) -> Vec<(String, u64)> {
-        C02_STATS.lock().map(|m| m.iter().map(|(k, v)| (k.clone(), *v)).collect()).unwrap_or_default()
-    }
 }
 
 /// K-F (known finding, format-inherent): after a successful `finish()` of an archive that needs no ZIP64 records,
@@ -869,15 +986,30 @@ fn known_false_signature(calls: &[String], srcs: &[Vec<u8>]) -> Option<String> {
     if n == 0xFFFF || sz == 0xFFFF_FFFF || off == 0xFFFF_FFFF { return None; }   // ZIP64 records are really there
     // the comment itself must be innocent (names/comments embedding signatures are outside the properties)
     if ro.comment.windows(4).any(|w| w == [0x50, 0x4b, 0x05, 0x06]) { return None; }
+    // ... and the crate's reader must really fail on the output, in the way the finding describes: (i) the search
+    // stops at the false end record, whose "comment" then runs past the end of the file (UnexpectedEof) or whose
+    // fields name no directory (InvalidArchive); (ii) the false locator names a ZIP64 end record on another disk /
+    // at an offset that holds none (UnsupportedArchive / InvalidArchive).  An output that opens is no K-F case,
+    // whatever its bytes spell
+    let reopen = |b: &[u8]| -> Option<String> {
+        let v = b.to_vec();
+        match catch(move || zip::ZipArchive::new(Cursor::new(v)).map(|_| ()).map_err(|e| cls_z(&e))) { Ok(Ok(())) => None, Ok(Err(c)) => Some(c), Err(_) => Some("panic".into()) }
+    };
     if clen > 0 {
         for p in eocd + 1..=end - 22 {
             if p + 4 <= end && b[p..p + 4] == [0x50, 0x4b, 0x05, 0x06] && p < eocd + 22 {
-                return Some(format!("K-F false-signature-in-fixed-fields: the end record's own fields spell an end-of-central-directory signature at offset +{} of the record and a comment follows, so the backward search stops there", p - eocd));
+                return match reopen(&b[..end]) {
+                    Some(c) if c == "err:io:eof" || c == "err:invalid" => Some(format!("K-F false-signature-in-fixed-fields: the end record's own fields spell an end-of-central-directory signature at offset +{} of the record and a comment follows, so the backward search stops there ({c})", p - eocd)),
+                    _ => None,
+                };
             }
         }
     }
     if eocd >= 20 && b[eocd - 20..eocd - 16] == [0x50, 0x4b, 0x06, 0x07] {
-        return Some("K-F false-signature-in-fixed-fields: the tail of the last central record (external attributes + header offset) spells the ZIP64 locator signature exactly where readers probe for a locator".to_string());
+        return match reopen(&b[..end]) {
+            Some(c) if c == "err:unsupported" || c == "err:invalid" => Some(format!("K-F false-signature-in-fixed-fields: the tail of the last central record (external attributes + header offset) spells the ZIP64 locator signature exactly where readers probe for a locator ({c})")),
+            _ => None,
+        };
     }
     None
 }
@@ -1016,7 +1148,7 @@ fn c02_length_audit(calls: &[String], tokens: &[String]) -> Vec<String> {
 /// The checks of property C02 on the bytes `live` that a successful finish() left: strict parser (hard errors ->
 /// `C02 strict:`), its view against what the calls wrote, the 16-bit length rule (`C02 length:`), CPython on a
 /// deterministic sample (`C02 cpython:`).  `nbase` entries were inherited from the base archive (append).
-fn c02_checks(key: &str, calls: &[String], srcs: &[Vec<u8>], ro: &RunOut, live: &[u8], nbase: usize, want_comment: &[u8]) -> Vec<OracleFailure> {
+fn c02_checks(key: &str, calls: &[String], srcs: &[Vec<u8>], ro: &RunOut, live: &[u8], nbase: usize, want_comment: &[u8], kf: Option<&str>) -> Vec<OracleFailure> {
     let mut out: Vec<String> = vec![];
     for m in c02_length_audit(calls, &ro.tokens) { out.push(format!("C02 length: {m}, and finish() reported success")); }
     // raw copies: (index among the created entries, source archive, source entry)
@@ -1079,11 +1211,33 @@ fn c02_checks(key: &str, calls: &[String], srcs: &[Vec<u8>], ro: &RunOut, live: 
         if v.zip64 { c02_count("strict.zip64-end-records", 1); }
         if other_errors == 0 {
             out.extend(c02_compare(v, ro, nbase, want_comment).into_iter().map(|m| format!("C02 strict: {m}")));
-            out.extend(c02_cpython(key, v, live));
+            out.extend(c02_cpython(key, v, live, kf.is_some()));
         }
     }
     if out.is_empty() { c02_count("strict.clean", 1); }
     out.into_iter().map(|what| OracleFailure { what }).collect()
+}
+
+/// The entries an append inherits, as the independent strict parser reads them in the base and in the live part
+/// of the result: same position, method, CRC, sizes, time stamp, stored bytes' range and decoded content; same
+/// name unless the central record was re-encoded from CP437 (K-A2, reported under its own label by `c02_checks`).
+fn c02_inherited(base: &StrictView, live: &[u8], nbase: usize) -> Vec<String> {
+    let rep = strict_parse(live, &StrictOpts { utf8_contract: false, ..Default::default() });
+    let v = match &rep.view { Some(v) => v, None => return vec![] };   // no view: `c02_checks` has reported why
+    let mut out = vec![];
+    if base.entries.len() != nbase || v.entries.len() < nbase { return out; }   // count mismatches are reported by the comparisons of the listing
+    for (i, (b, a)) in base.entries.iter().zip(v.entries.iter()).enumerate() {
+        let ka2 = a.local_name != a.name && a.local_name.iter().any(|c| *c >= 0x80) && a.local_flags & 0x0800 == 0 && a.flags & 0x0800 != 0;
+        if (b.header_offset, b.data_start, b.data_end, b.method, b.crc, b.compressed_size, b.uncompressed_size, b.dos_time, b.dos_date, b.decoded)
+            != (a.header_offset, a.data_start, a.data_end, a.method, a.crc, a.compressed_size, a.uncompressed_size, a.dos_time, a.dos_date, a.decoded) {
+            out.push(format!("C02 strict: inherited entry {i} changed: header at {} / data [{}, {}) / method {} / crc {:08x} / sizes {} {} / time {:04x} {:04x} / decoded {:?} before, header at {} / data [{}, {}) / method {} / crc {:08x} / sizes {} {} / time {:04x} {:04x} / decoded {:?} after",
+                b.header_offset, b.data_start, b.data_end, b.method, b.crc, b.compressed_size, b.uncompressed_size, b.dos_time, b.dos_date, b.decoded,
+                a.header_offset, a.data_start, a.data_end, a.method, a.crc, a.compressed_size, a.uncompressed_size, a.dos_time, a.dos_date, a.decoded));
+        }
+        if b.name != a.name && !ka2 { out.push(format!("C02 strict: inherited entry {i}: name of {} bytes before, {} bytes after (or the bytes differ)", b.name.len(), a.name.len())); }
+    }
+    if out.is_empty() { c02_count("strict.inherited-unchanged", nbase as u64); }
+    out
 }
 
 /// What the strict parser saw against what the calls wrote: count, order, names, methods, plaintext CRC and
@@ -1111,7 +1265,9 @@ fn c02_compare(v: &StrictView, ro: &RunOut, nbase: usize, want_comment: &[u8]) -
     out
 }
 
-fn c02_cpython(key: &str, v: &StrictView, live: &[u8]) -> Vec<String> {
+/// `kf`: the crate's reader provably fails on these bytes because of K-F (reported by the caller); CPython's zipfile
+/// probes the same place for a ZIP64 locator, so its refusal to OPEN them is the same finding - counted, not repeated.
+fn c02_cpython(key: &str, v: &StrictView, live: &[u8], kf: bool) -> Vec<String> {
     // the subset CPython's zipfile supports fully: stored / deflate / bzip2, no encryption
     if v.entries.iter().any(|e| e.encrypted || !matches!(e.method, 0 | 8 | 12)) { c02_count("cpython.ineligible", 1); return vec![]; }
     let sampled = match C02_MODE.load(Ordering::Relaxed) { 0 => true, 1 => fnv(key) % 16 == 0, _ => live.len() <= 65536 || fnv(key) % 16 == 0 };
@@ -1121,6 +1277,7 @@ fn c02_cpython(key: &str, v: &StrictView, live: &[u8]) -> Vec<String> {
         None => { c02_count("cpython.skipped-no-python", 1); return vec![]; }
     };
     c02_count("cpython.checked", 1);
+    if kf && p.starts_with("open-failed ") { c02_count("cpython.K-F-open-failed", 1); return vec![]; }
     let mut want = format!("n={} comment={}", v.entries.len(), hex(&v.comment));
     for e in &v.entries {
         want += &format!(" {}:{}:{}:{}:{}:{}", e.header_offset, e.crc, e.compressed_size, e.uncompressed_size, e.method, hex(&e.name));
@@ -1162,7 +1319,8 @@ fn listing(bytes: &[u8]) -> Result<(Vec<(String, u16, String, u64, Option<u32>, 
     Ok((v, a.comment().to_vec()))
 }
 
-fn oracle_append(calls: &[String], srcs: &[Vec<u8>]) -> Vec<OracleFailure> {
+/// `kf`: the K-F label when the crate's reader provably cannot open the LIVE part of this output for that reason.
+fn oracle_append(calls: &[String], srcs: &[Vec<u8>], kf: Option<&str>) -> Vec<OracleFailure> {
     let mut f = vec![];
     let base = unhex(&calls[0][3..]).unwrap_or_default();
     let before = match catch({ let b = base.clone(); move || listing(&b) }) { Ok(Ok(l)) => l, _ => return f };
@@ -1194,15 +1352,35 @@ fn oracle_append(calls: &[String], srcs: &[Vec<u8>]) -> Vec<OracleFailure> {
         // ... a name flagged as UTF-8 that is not well-formed UTF-8 is such a defect (APPNOTE 4.4.4 bit 11 / appendix D)
         let base_ok = base_rep.errors.is_empty()
             && base_rep.view.as_ref().map(|v| v.entries.iter().all(|e| e.flags & 0x0800 == 0 || std::str::from_utf8(&e.name).is_ok())).unwrap_or(true);
-        if base_ok { f.extend(c02_checks(&line_key, calls, srcs, &ro, live, before.0.len(), &want_comment)); }
+        if base_ok {
+            f.extend(c02_checks(&line_key, calls, srcs, &ro, live, before.0.len(), &want_comment, kf));
+            // ... and the INHERITED entries as the strict parser sees them, before and after
+            if let Some(bv) = &base_rep.view { f.extend(c02_inherited(bv, live, before.0.len()).into_iter().map(|what| OracleFailure { what })); }
+        }
         else { c02_count("append.base-not-strict", 1); }
     }
     let mut after = match catch({ let bytes = bytes.clone(); move || listing(&bytes) }) {
         Ok(Ok(l)) => l,
         Ok(Err(e)) => {
-            if stale > 0 { f.push(OracleFailure { what: format!("D14 append-leaves-stale-tail: the rewritten archive ends {stale} bytes before the old end of file and the stale tail makes it unreadable ({e})") }); }
-            else { f.push(OracleFailure { what: format!("append: finish() succeeded but the result does not open: {e}") }); }
-            return f;
+            // D14, first symptom: the whole sink does not open.  That is the stale tail's doing - and nothing else -
+            // exactly when the LIVE part (what the writer wrote) does open; everything below is then judged on the
+            // live part, so that any other defect (an old entry changed, a new one missing) is still reported
+            let live: Vec<u8> = bytes[..(ro.end_pos.unwrap_or(bytes.len() as u64) as usize).min(bytes.len())].to_vec();
+            let live_listing = if stale > 0 { catch(move || listing(&live)) } else { Ok(Err(e.clone())) };
+            match live_listing {
+                Ok(Ok(l)) => {
+                    f.push(OracleFailure { what: format!("D14 append-leaves-stale-tail: the rewritten archive ends {stale} bytes before the old end of file and the stale tail makes it unreadable ({e})") });
+                    l
+                }
+                Ok(Err(e2)) => {
+                    match kf {
+                        Some(k) => f.push(OracleFailure { what: k.to_string() }),
+                        None => f.push(OracleFailure { what: if stale > 0 { format!("append: finish() succeeded but neither the sink ({e}) nor the part of it the writer wrote ({e2}; {stale} stale bytes follow) opens") } else { format!("append: finish() succeeded but the result does not open: {e}") } }),
+                    }
+                    return f;
+                }
+                Err(_) => { f.push(OracleFailure { what: "append: panic while reading the result".into() }); return f; }
+            }
         }
         Err(_) => { f.push(OracleFailure { what: "append: panic while reading the result".into() }); return f; }
     };
@@ -1261,7 +1439,7 @@ fn oracle_append_big(line: &str) -> Vec<OracleFailure> {
         let ro = run_calls(&calls, &[]);
         if ro.tokens.iter().any(|t| t.contains("panic")) { f.push(OracleFailure { what: format!("append round {k} onto a base of {n} entries: a writer call panicked: {}", ro.tokens.join(" ")) }); return f; }
         if !ro.finished_ok { f.push(OracleFailure { what: format!("append round {k} onto a base of {n} entries did not finish: {}", ro.tokens.join(" ")) }); return f; }
-        for of in oracle_append(&calls, &[]) { f.push(OracleFailure { what: format!("{} (round {k}, base of {n}+ entries behind a {prefix}-byte stub)", of.what) }); }
+        for of in oracle_append(&calls, &[], None) { f.push(OracleFailure { what: format!("{} (round {k}, base of {n}+ entries behind a {prefix}-byte stub)", of.what) }); }
         match ro.fin { Some(b) => base = b, None => return f }
     }
     f
@@ -1338,6 +1516,7 @@ fn gen_append(seed: u64, tier: &str) -> GenOut {
             let srcs: Vec<Vec<u8>> = if r.chance(1, 4) { vec![small_source(&mut r)] } else { vec![] };
             let mut calls = rand_calls(&mut r, &srcs, Some(&base), false);
             if r.chance(1, 5) { calls.truncate(1); calls.push("fin".into()); }           // append nothing
+            if settle_flushes(&mut calls, &srcs) { *g.dist.entry("flush.removed-codec-row-collision".into()).or_insert(0) += 1; }
             // make sure the round finishes explicitly so the next round has a base
             if calls.last().map(|c| c == "drop").unwrap_or(false) { let k = calls.len() - 1; calls[k] = "fin".into(); }
             let line = make_line(&calls, &srcs);
@@ -1364,7 +1543,9 @@ fn gen_append(seed: u64, tier: &str) -> GenOut {
 // ---------------------------------------------------------------------------------------------
 // C14: raw copy
 
-fn oracle_rawcopy(calls: &[String], srcs: &[Vec<u8>]) -> Vec<OracleFailure> {
+/// `kf`: the K-F label when the crate's reader provably cannot open this output for that reason (the label is
+/// reported once by the caller; "does not open" is then the same fact and is not repeated here).
+fn oracle_rawcopy(calls: &[String], srcs: &[Vec<u8>], kf: Option<&str>) -> Vec<OracleFailure> {
     use std::io::Read;
     let mut f = vec![];
     let ro = run_calls(calls, srcs);
@@ -1382,11 +1563,12 @@ fn oracle_rawcopy(calls: &[String], srcs: &[Vec<u8>]) -> Vec<OracleFailure> {
         if created { dest += 1; }
         if x[0] == "fin" && tok == "ok" { break; }
     }
+    let known_open_failure = kf.is_some();
     let r = catch({
         let srcs = srcs.to_vec();
         move || -> Vec<String> {
             let mut out = vec![];
-            let mut a = match zip::ZipArchive::new(Cursor::new(bytes)) { Ok(a) => a, Err(e) => return vec![format!("rawcopy: result does not open: {}", cls_z(&e))] };
+            let mut a = match zip::ZipArchive::new(Cursor::new(bytes)) { Ok(a) => a, Err(e) => return if known_open_failure { vec![] } else { vec![format!("rawcopy: result does not open: {}", cls_z(&e))] } };
             if a.len() != dest { return vec![]; }   // bookkeeping mismatch (an aligned start that failed half-way): covered by the general oracle
             for (di, si, ei) in checks {
                 let mut s = match zip::ZipArchive::new(Cursor::new(srcs[si].clone())) { Ok(s) => s, Err(_) => continue };
@@ -1423,7 +1605,7 @@ fn oracle_rawcopy(calls: &[String], srcs: &[Vec<u8>]) -> Vec<OracleFailure> {
 
 fn gen_rawcopy(seed: u64, tier: &str) -> GenOut {
     let mut g = GenOut::default();
-    g.rule = "raw copies of unencrypted source entries (every method incl. ones the crate cannot decode, empty, descriptor sources from the independent builder, renamed or same name) interleaved with ordinary entries; copy as first / last / only entry. non-trivial = at least one raw copy succeeded and finish succeeded".into();
+    g.rule = "raw copies of unencrypted source entries (every method incl. ones the crate cannot decode, empty, descriptor sources from the independent builder, renamed or same name) interleaved with ordinary entries; copy as first / last / only entry; z64.rawcopy: sources whose compressed / uncompressed size is 2^32-2 .. 2^32+1 (a hole of a sparse source archive) copied into a sparse sink. non-trivial = at least one raw copy succeeded and finish succeeded".into();
     let n = if tier == "thorough" { 25_000 } else { 1_000 };
     for i in 0..n {
         let mut r = super::rng_for(seed, "rawcopy", i);
@@ -1449,5 +1631,8 @@ fn gen_rawcopy(seed: u64, tier: &str) -> GenOut {
         calls.push("fin".into());
         g.push("rawcopy", make_line(&calls, &srcs));
     }
+    // ZIP64-sized sources ("via sparse source"): compressed / uncompressed sizes of 2^32-2 .. 2^32+1 copied from a sparse
+    // source archive into a sparse sink (the z64 stream's op; deterministic, so not repeated for further seeds)
+    if tier != "quickx" { for (class, line) in super::z64::rc_big_lines(tier) { g.push(&class, line); } }
     g
 }
